@@ -11,7 +11,7 @@ import yaml
 from ..fillmodel import PathV, FileV
 from ..model import dotted_name, src
 from ..report import AnalysisError, REPO, Where
-from ..sym import Ev, DictV, Tup, RaisedV, BoundLib, hkey, is_sym
+from ..sym import Ev, DictV, Tup, RaisedV, BoundLib, hkey, is_sym, open_kw, yaml_kw
 
 CFG = "cij.io.config.config"
 LEVEL = "other"
@@ -125,8 +125,8 @@ def r_loader(ctx, model):
 
             intr = {
                 "pathlib.Path": path_ctor,
-                "builtins.open": lambda ev, a, k: (log.append(("open", a[0] if isinstance(a[0], str) else getattr(a[0], "text", "?"))) or FileV([], None)),
-                "yaml.load": lambda ev, a, k: (log.append(("yaml", tuple(sorted(k)))) or DictV({"from": "yaml"})),
+                "builtins.open": lambda ev, a, k: (open_kw(k), log.append(("open", a[0] if isinstance(a[0], str) else getattr(a[0], "text", "?"))))[0] or FileV([], None),
+                "yaml.load": lambda ev, a, k: (yaml_kw(k), log.append(("yaml", ())))[0] or DictV({"from": "yaml"}),
                 "yaml.safe_load": lambda ev, a, k: (log.append(("yaml", ())) or DictV({"from": "yaml"})),
                 "json.load": lambda ev, a, k: (log.append(("json", ())) or DictV({"from": "json"})),
                 "cij.io.config.validate:validate_config": lambda ev, a, k: log.append(("validate", unmark(a[0]))) or None,
@@ -181,8 +181,8 @@ def r_defaults(ctx, model):
     default = {"qha": {"settings": {"DT": "D_DT", "NT": "D_NT"}}, "output": "D_OUT"}
     intr = {
         "cij.data:get_data_fname": lambda ev, a, k: PathV(a[0], packaged=True),
-        "builtins.open": lambda ev, a, k: (log.append(a[0]) or FileV([], a[0])),
-        "yaml.load": lambda ev, a, k: marker(default),
+        "builtins.open": lambda ev, a, k: (open_kw(k), log.append(a[0]))[0] or FileV([], a[0]),
+        "yaml.load": lambda ev, a, k: yaml_kw(k) or marker(default),
         "yaml.safe_load": lambda ev, a, k: marker(default),
     }
     ev = Ev(model, {}, intr, ctx=ctx)
@@ -199,9 +199,9 @@ def r_defaults(ctx, model):
     cap = {}
     intr2 = {
         "cij.data:get_data_fname": lambda ev, a, k: PathV(a[0], packaged=True),
-        "builtins.open": lambda ev, a, k: (cap.setdefault("opened", []).append(getattr(a[0], "text", a[0])) or FileV([], a[0])),
+        "builtins.open": lambda ev, a, k: (open_kw(k), cap.setdefault("opened", []).append(getattr(a[0], "text", a[0])))[0] or FileV([], a[0]),
         "json.load": lambda ev, a, k: DictV({"schema": "S"}),
-        "jsonschema.validate": lambda ev, a, k: cap.update(v=(a, k)) or None,
+        "jsonschema.validate": lambda ev, a, k: cap.update(v=(a, k.all())) or None,
     }
     ev2 = Ev(model, {}, intr2, ctx=ctx)
     cfg = DictV({"cfg": "C"})
